@@ -21,6 +21,52 @@ func (e *Engine) newFT(fn *ssa.Function, con *FnContract) *FT {
 		unconstrained: map[string]bool{}, callSiteHits: map[*Clause]int{}, paramCVs: map[string]*CV{}, invHit: map[*Clause]bool{}, refSources: map[string]bool{}, namedLits: map[string]string{}}
 }
 
+// VerifyRG is the rely/guarantee tier (DESIGN.md §6.4): the same function,
+// translated with a yield - the ghost state changes arbitrarily within the
+// `rely` clauses - before every call that reads or writes the store or the
+// Lightning backend. Only the rg clauses of the contract are proved; the
+// sequential ensures / invariants / boundary clauses are not used.
+func (e *Engine) VerifyRG(fn *ssa.Function, con *FnContract) *FT {
+	rc := *con
+	rc.Ensures, rc.Calls, rc.Invariants, rc.Boundary, rc.Safety = con.RgEnsures, con.RgCalls, con.RgInvariants, nil, nil
+	rc.Assumes, rc.Given, rc.Records = nil, nil, nil
+	// obligations of this tier count only for the properties its clauses name
+	rc.Tags = nil
+	for _, cs := range [][]*Clause{con.RgEnsures, con.RgCalls} {
+		for _, c := range cs {
+			rc.Tags = unionTags(rc.Tags, c.Tags)
+		}
+	}
+	p1 := e.newFT(fn, &rc)
+	p1.collect, p1.rg = true, true
+	p1.translate()
+	ft := e.newFT(fn, &rc)
+	ft.rg = true
+	ft.loopWrites = p1.loopWrites
+	ft.refSources = p1.refSources
+	ft.translate()
+	// an obligation of this tier counts for the properties the tier's clauses name, nothing else
+	var keep []*Obligation
+	for _, o := range ft.obls {
+		var tags []string
+		for _, t := range o.Tags {
+			for _, w := range rc.Tags {
+				if t == w {
+					tags = append(tags, t)
+				}
+			}
+		}
+		if len(tags) == 0 {
+			continue
+		}
+		o.Tags = tags
+		o.Name = "rg:" + o.Name
+		keep = append(keep, o)
+	}
+	ft.obls = keep
+	return ft
+}
+
 // Verify translates fn under its contract and returns the translation with
 // all obligations generated.
 func (e *Engine) Verify(fn *ssa.Function, con *FnContract) *FT {
